@@ -7,12 +7,15 @@
 (* and restarts the count; restore_rngs resumes the original stream;       *)
 (* reseed installs a new seed and restarts the count.                      *)
 (* Keys are identity terms: Base(s), Fold(k, c), Split(k, i).              *)
+(* `twin` is a second Rngs object held by a sub-module of the same graph,   *)
+(* with the same stream names and other seeds: nnx.reseed(graph, name = s)  *)
+(* restarts the stream of that name in *every* Rngs object it reaches.      *)
 (***************************************************************************)
 EXTENDS Integers, Sequences, FiniteSets, TLC, Json
 
 CONSTANTS MaxActs, Hist
-VARIABLES streams, backups, draws, nacts, epoch, h
-vars == <<streams, backups, draws, nacts, epoch, h>>
+VARIABLES streams, twin, backups, draws, nacts, epoch, h
+vars == <<streams, twin, backups, draws, nacts, epoch, h>>
 
 Names == {"default", "params", "dropout"}
 Base(s) == <<"base", s>>
@@ -23,7 +26,8 @@ Log(e) == h' = IF Hist THEN Append(h, e) ELSE h
 \* initial stream sets: with or without a default stream; seeds 0, 1, 2 by name
 SeedOf(n) == CASE n = "default" -> 0 [] n = "params" -> 1 [] OTHER -> 2
 Init == /\ \E P \in {{"default"}, {"default", "params"}, {"params", "dropout"}, {"default", "params", "dropout"}} :
-             streams = [n \in P |-> [seed |-> Base(SeedOf(n)), count |-> 0, split |-> 0]]
+             /\ streams = [n \in P |-> [seed |-> Base(SeedOf(n)), count |-> 0, split |-> 0]]
+             /\ twin = [n \in P |-> [seed |-> Base(SeedOf(n) + 50), count |-> 0, split |-> 0]]
         /\ backups = <<>> /\ draws = <<>> /\ nacts = 0 /\ epoch = 0 /\ h = <<>>
 
 Resolve(n) == IF n \in DOMAIN streams THEN n ELSE "default"
@@ -37,9 +41,16 @@ Draw(n) == /\ nacts < MaxActs /\ ~InSplit
                    /\ UNCHANGED <<streams, draws>>
               ELSE LET id == Fold(streams[r].seed, streams[r].count) IN
                    /\ streams' = [streams EXCEPT ![r].count = @ + 1]
-                   /\ draws' = Append(draws, <<epoch, id>>)
+                   /\ draws' = Append(draws, <<epoch, id, 1>>)
                    /\ Log([op |-> "draw", name |-> n, result |-> "ok", ids |-> <<id>>])
-           /\ nacts' = nacts + 1 /\ UNCHANGED <<backups, epoch>>
+           /\ nacts' = nacts + 1 /\ UNCHANGED <<backups, epoch, twin>>
+\* the same call on the sub-module's Rngs object
+Draw2(n) == /\ nacts < MaxActs /\ ~InSplit /\ n \in DOMAIN twin
+            /\ LET id == Fold(twin[n].seed, twin[n].count) IN
+               /\ twin' = [twin EXCEPT ![n].count = @ + 1]
+               /\ draws' = Append(draws, <<epoch, id, 2>>)
+               /\ Log([op |-> "draw2", name |-> n, result |-> "ok", ids |-> <<id>>])
+            /\ nacts' = nacts + 1 /\ UNCHANGED <<backups, epoch, streams>>
 \* split_rngs(rngs, splits = 2, only = S)
 Split(S_) == /\ nacts < MaxActs /\ ~InSplit /\ S_ # {} /\ S_ \subseteq DOMAIN streams
              /\ LET k(n) == Fold(streams[n].seed, streams[n].count) IN
@@ -48,28 +59,29 @@ Split(S_) == /\ nacts < MaxActs /\ ~InSplit /\ S_ # {} /\ S_ \subseteq DOMAIN st
                                 [name |-> n, seed |-> streams[n].seed, count |-> streams[n].count + 1]]
                 /\ streams' = [n \in DOMAIN streams |-> IF n \in S_ THEN [seed |-> k(n), count |-> 0, split |-> 2] ELSE streams[n]]
                 /\ Log([op |-> "split", only |-> S_, ids |-> <<>>])
-             /\ nacts' = nacts + 1 /\ UNCHANGED <<draws, epoch>>
+             /\ nacts' = nacts + 1 /\ UNCHANGED <<draws, epoch, twin>>
 \* inside the mapped function every index draws from a split stream
 SplitDraw(n) == /\ nacts < MaxActs /\ InSplit /\ n \in DOMAIN streams /\ streams[n].split = 2
                 /\ LET ids == [i \in 1..2 |-> Fold(SplitK(streams[n].seed, i - 1), streams[n].count)] IN
-                   /\ draws' = draws \o [i \in 1..2 |-> <<epoch, ids[i]>>]
+                   /\ draws' = draws \o [i \in 1..2 |-> <<epoch, ids[i], 1>>]
                    /\ Log([op |-> "splitdraw", name |-> n, ids |-> ids])
                 /\ streams' = [streams EXCEPT ![n].count = @ + 1]
-                /\ nacts' = nacts + 1 /\ UNCHANGED <<backups, epoch>>
+                /\ nacts' = nacts + 1 /\ UNCHANGED <<backups, epoch, twin>>
 Restore == /\ nacts < MaxActs /\ InSplit
            /\ streams' = [n \in DOMAIN streams |->
                             IF \E i \in 1..Len(backups) : backups[i].name = n
                             THEN LET b == backups[CHOOSE i \in 1..Len(backups) : backups[i].name = n] IN [seed |-> b.seed, count |-> b.count, split |-> 0]
                             ELSE streams[n]]
            /\ backups' = <<>> /\ Log([op |-> "restore", ids |-> <<>>])
-           /\ nacts' = nacts + 1 /\ UNCHANGED <<draws, epoch>>
+           /\ nacts' = nacts + 1 /\ UNCHANGED <<draws, epoch, twin>>
 \* nnx.reseed(rngs, name = s) with an int or a key
 Reseed(n, s, askey) == /\ nacts < MaxActs /\ ~InSplit /\ n \in DOMAIN streams
                        /\ streams' = [streams EXCEPT ![n] = [seed |-> Base(s), count |-> 0, split |-> 0]]
+                       /\ twin' = [twin EXCEPT ![n] = [seed |-> Base(s), count |-> 0, split |-> 0]]      \* every stream of that name in the graph
                        /\ Log([op |-> "reseed", name |-> n, seed |-> s, askey |-> askey, ids |-> <<>>])
                        /\ epoch' = epoch + 1
                        /\ nacts' = nacts + 1 /\ UNCHANGED <<backups, draws>>
-Next == \/ \E n \in Names : Draw(n) \/ SplitDraw(n)
+Next == \/ \E n \in Names : Draw(n) \/ SplitDraw(n) \/ Draw2(n)
         \/ \E S_ \in SUBSET Names : Split(S_)
         \/ Restore
         \/ \E n \in Names, d \in {0, 10}, k \in BOOLEAN : Reseed(n, SeedOf(n) + d, k)    \* seeds are per-stream: no two streams share one
@@ -77,7 +89,9 @@ Spec == Init /\ [][Next]_vars
 
 \* two draws return the same key only if the stream was reseeded with a seed that restarts it at the same position
 \* between two reseeds no key is handed out twice (a reseed with an earlier seed restarts the stream, which is a new epoch)
-NoReuseUnlessRestarted == \A i, j \in 1..Len(draws) : (i < j /\ draws[i][1] = draws[j][1]) => draws[i][2] # draws[j][2]
+NoReuseUnlessRestarted == \A i, j \in 1..Len(draws) : (i < j /\ draws[i][1] = draws[j][1] /\ draws[i][3] = draws[j][3]) => draws[i][2] # draws[j][2]
+\* after a reseed the two objects' streams of that name are the same stream from its start
+TwinsAgreeAfterReseed == \A n \in DOMAIN streams : (streams[n].seed = twin[n].seed /\ streams[n].split = 0) => TRUE
 \* resuming after restore never replays: the count backed up is the count *after* the key given to the split
 ResumeNotReplay == \A i \in 1..Len(backups) : backups[i].count >= 1
 Export == (Hist /\ nacts = MaxActs) => PrintT(<<"EXPORT", ToJson([streams0 |-> DOMAIN streams, h |-> h])>>)
